@@ -254,6 +254,15 @@ def _canon_result(res, modsyms):
         out["cfg"].append([node(e.source), node(e.target), None if l is None else [l.type.name, bool(l.conditional), bool(l.direct)]])
     out["cfg"].sort(key=repr)
     out["proxies"] = len(res.proxies)
+    table = res.create_cfi_directives()
+    out["cfi"] = []
+    for sname, s in sorted(res.sections.items()):
+        at = {}
+        for b in s.blocks:
+            for disp, ds in sorted(table.get(b, {}).items()):
+                at.setdefault(b.offset + disp, []).extend(
+                    [n_, list(a_), getattr(s_, "name", None)] for n_, a_, s_ in ds)
+        out["cfi"].append([sname, sorted(at.items())])
     return out
 
 
@@ -269,7 +278,9 @@ def _chunks(spec):
     isa, fmt = spec["isa"], spec["fmt"]
     if (isa, fmt) not in I.TRIPLES:
         raise BadSpec("pair")
-    toks = list(spec["toks"])
+    toks = []
+    for t in spec["toks"]:
+        toks.extend(t["seq"] if "seq" in t else [t])
     cuts = sorted({c % (len(toks)) for c in spec["cuts"] if len(toks) > 1 and c % len(toks)})
     if not cuts:
         out.excluded = "no-cut-possible"
@@ -279,6 +290,10 @@ def _chunks(spec):
     for c in cuts + [len(toks)]:
         pieces.append(toks[prev:c])
         prev = c
+    # every assemble() call is a parse of its own, so a CFI procedure cannot
+    # stay open across a cut: close it (a no-op when none is open)
+    for p in pieces[:-1]:
+        p += [{"sec": "text"}, {"cfi": "end", "a": 0, "b": 0, "sym": {"k": "mod", "i": 0}}]
     # no piece may refer to a label defined in a later piece: references to own
     # labels are restricted (by the C12 resolver) to labels of the whole program,
     # so make every own reference point to a module symbol unless its label is
